@@ -807,6 +807,11 @@ type gcCase struct {
 	Splits  int // topology changes gated into the GC's RPCs
 	Faults  int // percent of the GC's RPCs that get a fault
 	CutAt   int // > 0: from the CutAt-th RPC of the GC on, every request is lost (the GC has to give up)
+	Every   bool // a region border on every key (Regions = NKeys): several 128-region sub-tasks for KVStore.GC
+	// caller-side cancellation: the context given to the GC call is cancelled right after the answer of its
+	// CancelRPC-th request / of the ScanLock request starting at CancelScan (the last request of a sub-task)
+	CancelRPC  int
+	CancelScan string
 	SPMid   bool
 	Seed    int64
 }
@@ -814,10 +819,17 @@ type gcCase struct {
 func (c gcCase) String() string {
 	return fmt.Sprintf("%s/%s/strict=%v/keys=%d/txns=%d/regions=%d/limit=%d/rpt=%d/conc=%d/wide=%d/splits=%d/faults=%d%%/spmid=%v",
 		c.Backend, c.Mode, c.Strict, c.NKeys, c.NTxns, c.Regions, c.Limit, c.RPT, c.Conc, c.Wide, c.Splits, c.Faults, c.SPMid) + func() string {
+		x := ""
 		if c.CutAt > 0 {
-			return fmt.Sprintf("/cut@%d", c.CutAt)
+			x += fmt.Sprintf("/cut@%d", c.CutAt)
 		}
-		return ""
+		if c.CancelRPC > 0 {
+			x += fmt.Sprintf("/cancel@rpc%d", c.CancelRPC)
+		}
+		if c.CancelScan != "" {
+			x += "/cancel@scan:" + c.CancelScan
+		}
+		return x
 	}()
 }
 
@@ -842,18 +854,25 @@ func runGCCase(r *vrep.Report, cs gcCase) {
 	}
 	// region borders: on keys and between keys; a wide run of keys must stay inside one region now and then,
 	// so borders are drawn from the whole key range and the wide transactions take neighbouring keys
-	for i := 0; i < cs.Regions-1; i++ {
-		k := keyName(rng.Intn(cs.NKeys))
-		if rng.Intn(3) == 0 {
-			k += "5"
+	if cs.Every {
+		for i := 1; i < cs.NKeys; i++ {
+			lay.split(keyName(i))
 		}
-		lay.split(k)
+	} else {
+		for i := 0; i < cs.Regions-1; i++ {
+			k := keyName(rng.Intn(cs.NKeys))
+			if rng.Intn(3) == 0 {
+				k += "5"
+			}
+			lay.split(k)
+		}
 	}
 	d := &rawDriver{u: u, st: u.TruthStore()}
 	b := &popBuilder{u: u, d: d, rng: rng, keys: keys, free: map[string]bool{}}
 	for _, k := range keys {
 		b.free[k] = true
 	}
+	delete(b.free, cs.CancelScan) // that region stays lock-free: its scan is the last request of its sub-task
 	shapes := append([]string(nil), rawShapes...)
 	if cs.Backend == uni.Uni {
 		shapes = append(shapes, asyncShapes...)
@@ -978,6 +997,9 @@ func runGCCase(r *vrep.Report, cs gcCase) {
 	crng := rand.New(rand.NewSource(cs.Seed ^ 0xc14))
 	splitBudget := cs.Splits
 	gcRPCs := 0
+	cancelFired := false
+	ctx, cancelCtx := context.WithCancel(bg)
+	defer cancelCtx()
 	var splitsDuring, topoDuring, faults atomic.Int64
 	// logical progress bound: every scan request either finds a lock that is then resolved or finishes a region,
 	// apart from retries after (budgeted) faults and topology changes
@@ -997,6 +1019,16 @@ func runGCCase(r *vrep.Report, cs gcCase) {
 		mu.Lock()
 		defer mu.Unlock()
 		gcRPCs++
+		if !cancelFired {
+			hit := cs.CancelRPC > 0 && gcRPCs == cs.CancelRPC
+			if q, ok := c.Req.(*kvrpcpb.ScanLockRequest); ok && cs.CancelScan != "" && string(q.StartKey) == cs.CancelScan {
+				hit = true
+			}
+			if hit {
+				cancelFired = true
+				return uni.Action{After: cancelCtx}
+			}
+		}
 		if cs.CutAt > 0 && gcRPCs >= cs.CutAt {
 			faults.Add(1)
 			return uni.Action{Kind: uni.DropReq}
@@ -1067,9 +1099,9 @@ func runGCCase(r *vrep.Report, cs gcCase) {
 		}()
 		switch cs.Mode {
 		case "gc":
-			_, rs.err = gc.Store.GC(bg, sp, tikv.WithConcurrency(cs.Conc))
+			_, rs.err = gc.Store.GC(ctx, sp, tikv.WithConcurrency(cs.Conc))
 		case "phase":
-			rs.err = tikv.StoreProbe{KVStore: gc.Store}.GCResolveLockPhase(bg, sp, cs.Conc)
+			rs.err = tikv.StoreProbe{KVStore: gc.Store}.GCResolveLockPhase(ctx, sp, cs.Conc)
 		default:
 			lr := tikv.NewRegionLockResolver("verif-c14", gc.Store)
 			h := func(ctx context.Context, kr kv.KeyRange) (st rangetask.TaskStat, err error) {
@@ -1086,7 +1118,7 @@ func runGCCase(r *vrep.Report, cs gcCase) {
 			}
 			runner := rangetask.NewRangeTaskRunner("verif-c14-resolve", gc.Store, cs.Conc, h)
 			runner.SetRegionsPerTask(cs.RPT)
-			rs.err = runner.RunOnRange(bg, []byte(""), []byte(""))
+			rs.err = runner.RunOnRange(ctx, []byte(""), []byte(""))
 		}
 	}()
 	var out res
@@ -1097,6 +1129,9 @@ func runGCCase(r *vrep.Report, cs gcCase) {
 		return
 	}
 	gc.Net.SetDecider(nil)
+	mu.Lock()
+	cancelled := cancelFired
+	mu.Unlock()
 	detail := func(extra map[string]any) map[string]any {
 		m := map[string]any{"case": cs.String(), "seed": cs.Seed, "safe_point": sp, "borders": lay.sorted()}
 		var pop []string
@@ -1195,13 +1230,20 @@ func runGCCase(r *vrep.Report, cs gcCase) {
 	r.Eval(len(before.locks) + len(keys) + len(b.regs))
 	if out.err != nil {
 		r.Count("gc_returned_error", 1)
-		if faults.Load() == 0 && !runaway.Load() {
+		if cancelled {
+			// the caller gave up: an error is a truthful answer
+			r.Count("gc_cancelled_returning_error", 1)
+		} else if faults.Load() == 0 && !runaway.Load() {
 			viol(r, cs.Backend, "gc:error-without-fault:"+cs.Mode, fmt.Sprintf("%s: GC returned %s although no fault was injected", cs, es(out.err)), detail(nil))
 		} else {
 			r.Count("gc_error_after_faults", 1)
 		}
 	} else {
 		r.Count("gc_returned_nil", 1)
+		if cancelled {
+			// nil after the caller's cancellation: the full oracle above applied all the same
+			r.Count("gc_cancelled_returning_nil", 1)
+		}
 	}
 	// reads at and above the safe point through a fresh client
 	if full && len(probs) == 0 {
@@ -1449,7 +1491,42 @@ func TestVerifC14GC(t *testing.T) {
 			}
 		}
 		cs.SPMid = rng.Intn(3) == 0
+		if cs.Mode == "range" && cs.CutAt == 0 && rng.Intn(4) == 0 {
+			// the caller cancels in the middle: many small sub-tasks, most regions lock-free (their single scan is
+			// the last request of their sub-task)
+			cs.Regions = 8 + rng.Intn(20)
+			cs.RPT = 1 + rng.Intn(2)
+			cs.Faults, cs.Splits = 0, 0
+			cs.CancelRPC = 1 + rng.Intn(cs.Regions)
+		}
 		cases = append(cases, cs)
+	}
+	// KVStore.GC / GCResolveLockPhase hand out sub-tasks of 128 regions: layouts with several sub-tasks, the caller
+	// cancels right after the last scan of the first sub-task (or at some request) while later sub-tasks hold locks
+	// (200 regions = two sub-tasks: with one worker the second one is queued and the dispatcher has finished when the
+	// first one's last scan is answered; 420 regions = four sub-tasks: the dispatcher is still waiting to hand one out)
+	bigCancel := []gcCase{
+		{Backend: uni.Mock, Mode: "gc", Conc: 1, NKeys: 200, CancelScan: keyName(127)},
+		{Backend: uni.Mock, Mode: "phase", Conc: 1, NKeys: 200, CancelScan: keyName(127)},
+		{Backend: uni.Uni, Mode: "phase", Conc: 1, NKeys: 200, CancelScan: keyName(127)},
+		{Backend: uni.Mock, Mode: "gc", Conc: 1, NKeys: 420, CancelScan: keyName(127)},
+		{Backend: uni.Mock, Mode: "gc", Conc: 2, NKeys: 420, CancelRPC: 100 + rng.Intn(200)},
+		{Backend: uni.Uni, Mode: "phase", Conc: 2, NKeys: 420, CancelScan: keyName(255)},
+	}
+	if vrep.Thorough() {
+		for i := 0; i < 10; i++ {
+			c := bigCancel[i%6]
+			c.Conc = 1 + rng.Intn(3)
+			if i%2 == 0 {
+				c.CancelScan, c.CancelRPC = "", 50+rng.Intn(400)
+			}
+			bigCancel = append(bigCancel, c)
+		}
+	}
+	for i, c := range bigCancel {
+		c.Seed = seed*100003 + 9500 + int64(i)
+		c.Every, c.Regions, c.NTxns, c.Limit, c.RPT, c.Strict = true, c.NKeys, 14, 1024, 128, i%2 == 0
+		cases = append(cases, c)
 	}
 	// the production limit (1024) needs a region with more locks than that
 	for i, be := range []string{uni.Mock, uni.Uni} {
